@@ -52,6 +52,8 @@ def run_and_validate(rep, items, chk=("final",), case_opts=None, timeout=1500):
     recs = []
     for it in items:
         src, ap = render(it["prog"], full=it.get("full", False))
+        if "src_override" in it:        # text produced by the specification itself (e.g. GenPrec)
+            src = it["src_override"]
         it["src"] = src
         c = {"id": it["id"], "src": src}
         if case_opts:
